@@ -2,13 +2,15 @@
 //
 // Oracle (metamorphic): a generated object x is created in engine A; S1 = SHOW CREATE x is executed
 // in an empty database of a fresh engine B; then
-//   (1) S1 must be accepted by B,
-//   (2) S2 = SHOW CREATE x on B must equal S1 byte for byte,
-//   (3) the two objects must agree structurally through the Go catalog API (columns: type,
-//       nullability, default, generated expression, auto-increment, comment, collation; PK ordinals;
-//       indexes; checks; foreign keys; table collation and comment),
-//   (4) behaviour probes agree: a defaults-only INSERT (tables), SELECT * (views), one DML statement
-//       (triggers), one CALL with OUT values (procedures).
+//
+//	(1) S1 must be accepted by B,
+//	(2) S2 = SHOW CREATE x on B must equal S1 byte for byte,
+//	(3) the two objects must agree structurally through the Go catalog API (columns: type,
+//	    nullability, default, generated expression, auto-increment, comment, collation; PK ordinals;
+//	    indexes; checks; foreign keys; table collation and comment),
+//	(4) behaviour probes agree: a defaults-only INSERT (tables), SELECT * (views), one DML statement
+//	    (triggers), one CALL with OUT values (procedures).
+//
 // A generated CREATE that engine A rejects is inconclusive (counted by error class).
 package main
 
